@@ -1,4 +1,5 @@
 import LC.Props.C04
+import LC.Props.C09Footprint
 #print axioms LC.V2Match.sortBy_perm
 #print axioms LC.V2Match.sortBy_sorted
 #print axioms LC.V2Match.sort_order_irrelevant
@@ -11,3 +12,6 @@ import LC.Props.C04
 #print axioms LC.V2Match.dict_add_stable
 #print axioms LC.V2Match.matchLess_fields_current
 #print axioms LC.V2Match.mrLess_fields_current
+#print axioms LC.Spec.FootprintExpect.footprint_current
+#print axioms LC.Spec.FootprintExpect.match_does_not_update_dict
+#print axioms LC.Spec.FootprintExpect.write_targets
